@@ -87,6 +87,28 @@ class SelfRef(DataClassDictMixin):
     n: Optional[int] = None
     nxt: Optional[Self] = None
 
+from mashumaro.mixins.toml import DataClassTOMLMixin as _TomlMixin
+from mashumaro.mixins.msgpack import DataClassMessagePackMixin as _MsgpackMixin
+from mashumaro.mixins.orjson import DataClassORJSONMixin as _OrjsonMixin
+
+@dataclass
+class SelfT(_TomlMixin):
+    v: datetime.date
+    n: Optional[int] = None
+    nxt: Optional[Self] = None
+
+@dataclass
+class SelfM(_MsgpackMixin):
+    v: datetime.date
+    b: bytes = b"x"
+    nxt: Optional[Self] = None
+
+@dataclass
+class SelfO(_OrjsonMixin):
+    v: datetime.date
+    u: UUID = UUID(int=1)
+    nxt: Optional[Self] = None
+
 @dataclass
 class Lvl1(DataClassDictMixin):
     a: int
@@ -129,6 +151,8 @@ LEAVES = [
     ("newtype", "UserId", ()), ("nt", "NT", ()), ("td", "TDict", ()), ("tdnt", "TDictNT", ()),
     ("plain", "Plain", ()), ("mix", "Mix", ()), ("inh", "Inh", ()), ("gen_int", "Gen[int]", ()),
     ("gen_date", "Gen[datetime.date]", ()), ("optd", "OptD", ()), ("selfref", "SelfRef", ()), ("lvl3", "Lvl3", ()),
+    ("self_toml", "SelfT", ("fmtself:toml",)), ("self_msgpack", "SelfM", ("fmtself:msgpack",)),
+    ("self_orjson", "SelfO", ("fmtself:orjson",)),
 ]
 # SerializableType leaf kept separate (oracle treats it by its own methods)
 CTORS = [
@@ -144,7 +168,7 @@ CTORS = [
     ("final", "Final[{X}]", ("fieldonly",)),
 ]
 UNHASHABLE = {"any", "nt", "td", "tdnt", "plain", "mix", "inh", "gen_int", "gen_date", "bytearray", "pattern", "none", "optd",
-              "selfref", "lvl3"}
+              "selfref", "lvl3", "self_toml", "self_msgpack", "self_orjson"}
 # union with int: members whose wire form is int/bool/float/str-compatible are lossy
 UNION_LOSSY = {"int", "bool", "float", "any", "intenum", "intflag", "num", "newtype", "timedelta", "none", "lit",
                "flag", "litenum"}
